@@ -205,6 +205,10 @@ func (s *CommitStateDB) Finalise(deleteEmptyObjects bool) error {
 		case isDirty:
 			// Set all the dirty state storage items for the state object in the
 			// protocol and finally set the account in the account mapper.
+			if stateEntry.stateObject.created {
+				// what the store holds under the address belonged to the replaced account
+				s.contractStore.DeleteStorage(stateEntry.address)
+			}
 			stateEntry.stateObject.commitState()
 
 			// write any contract code associated with the state object
